@@ -197,6 +197,60 @@ Qed.
 Lemma quota_code_model b cap cur : quota_code b cap cur (quota_new b cap cur) = 0.
 Proof. apply quota_code_spec. apply quota_holds_model. Qed.
 
+(* ---------------------------------------------------------------- quota mode over a history *)
+
+Lemma qstep_code_spec cap prev op o : qstep_code cap prev op o = 0 <-> qstep_ok cap prev op o.
+Proof.
+  destruct op as [b| |v|]; cbn [qstep_code qstep_ok].
+  - rewrite <- quota_code_spec. destruct (quota_code b cap prev o =? 0) eqn:E.
+    + apply Z.eqb_eq in E. rewrite E. split; reflexivity.
+    + apply Z.eqb_neq in E. split; [|intros H; contradiction].
+      intros H. exfalso.
+      assert (Hc : 0 <= quota_code b cap prev o).
+      { unfold quota_code.
+        repeat match goal with |- context [if ?c then _ else _] => destruct c end; lia. }
+      lia.
+  - destruct ((o =? prev) || (o =? -1)) eqn:E.
+    + split; [intros _|reflexivity]. apply orb_true_iff in E.
+      destruct E as [E|E]; apply Z.eqb_eq in E; [left|right]; exact E.
+    + split; [discriminate|]. intros [H|H]; subst o; rewrite Z.eqb_refl in E;
+        [discriminate | rewrite orb_true_r in E; discriminate].
+  - destruct (o =? v) eqn:E; [apply Z.eqb_eq in E|apply Z.eqb_neq in E];
+      split; try reflexivity; try discriminate; auto; intros H; contradiction.
+  - destruct (o =? prev) eqn:E; [apply Z.eqb_eq in E|apply Z.eqb_neq in E];
+      split; try reflexivity; try discriminate; auto; intros H; contradiction.
+Qed.
+
+Lemma hist_code_spec cap : forall ops prev obs, hist_code cap prev ops obs = 0 <-> hist_holds cap prev ops obs.
+Proof.
+  induction ops as [|op t IH]; intros prev obs; destruct obs as [|o u]; cbn [hist_code hist_holds];
+    try (split; [discriminate | intros H; destruct H]); try (split; reflexivity || auto; fail).
+  pose proof (qstep_code_spec cap prev op o) as Hs.
+  destruct (qstep_code cap prev op o =? 0) eqn:E.
+  - apply Z.eqb_eq in E. rewrite IH. split.
+    + intros H. split; [apply Hs; exact E | exact H].
+    + intros [_ H]. exact H.
+  - apply Z.eqb_neq in E. split.
+    + intros H. exfalso. exact (E H).
+    + intros [H _]. exfalso. apply E. apply Hs. exact H.
+Qed.
+
+(* after EVERY quota round of ANY history (recoveries, external resets and cpuset rounds in
+   between, any starting contents, any status) the file holds the formula value *)
+Lemma hist_holds_model cap : forall ops st, hist_holds cap (fst st) ops (hist cap st ops).
+Proof.
+  induction ops as [|op t IH]; intros [cur rec]; cbn [hist hist_holds]; [exact I|].
+  split; [|apply IH].
+  destruct op as [b| |v|]; cbn [qstep qstep_ok fst].
+  - apply quota_holds_model.
+  - destruct rec; cbn [fst]; [left|right]; reflexivity.
+  - reflexivity.
+  - reflexivity.
+Qed.
+
+Lemma hist_code_model cap init rec ops : hist_code cap init ops (hist cap (init, rec) ops) = 0.
+Proof. apply hist_code_spec. apply (hist_holds_model cap ops (init, rec)). Qed.
+
 (* ---------------------------------------------------------------- budget *)
 
 Lemma budget_holdsb_spec i b : budget_holdsb i b = true <-> budget_holds i b.
